@@ -18,7 +18,8 @@
 
    [texec] is the semantics over one task record (input, output, error) for arbitrary pre-processor,
    action and post-processor (each a function from its argument to a result and a failure flag); it
-   logs every call with its argument.  Gen/StateTask.v is what tools/go2v (extractor "statetask") reads
+   logs every call with its argument and tells how the block ended (end reached / return / submit
+   fails).  Gen/StateTask.v is what tools/go2v (extractor "statetask") reads
    from the source; Proofs/GenAgreeStateTask.v proves the programs equal; Proofs/StateTask.v proves the
    pipeline: the pre-handler is called once on the task's input and what it returns is what the node
    receives; the post-handler is called once on the node's output and what it returns is the task's
@@ -48,16 +49,16 @@ Inductive tstmt :=
 | TReturn                                (* return *)
 | TIf (c : tcond) (body : list tstmt).
 
-Inductive tstatus := TRunning | TReturned | TFailed.
-
 Section Task.
   Variable X : Type.
   Variables (has_pre skip has_post : bool).
   Variable proc : tproc -> X -> X * bool.      (* result, failed *)
 
   Record tstate := mkTS {
-    ts_in : X; ts_out : X; ts_err : bool; ts_tmp : X; ts_cerr : bool;
-    ts_calls : list (tproc * X); ts_status : tstatus }.
+    ts_in : X; ts_out : X; ts_err : bool; ts_tmp : X; ts_cerr : bool; ts_calls : list (tproc * X) }.
+
+  (* how a block ends: fell off its end / returned / failed (submit returns an error) *)
+  Inductive tres := RRun (st : tstate) | RRet (st : tstate) | RFail (st : tstate).
 
   Fixpoint tcond_eval (st : tstate) (c : tcond) : bool :=
     match c with
@@ -72,48 +73,50 @@ Section Task.
   Definition tget (st : tstate) (fl : tfield) : X :=
     match fl with FInput => ts_in st | FOutput => ts_out st end.
 
-  Fixpoint texec1 (fuel : nat) (s : tstmt) (st : tstate) : tstate :=
+  Fixpoint texec1 (fuel : nat) (s : tstmt) (st : tstate) : tres :=
     match fuel with
-    | O => st
+    | O => RFail st
     | Datatypes.S fu =>
-      match ts_status st with
-      | TRunning =>
-        match s with
-        | TCall p arg =>
-            let '(y, e) := proc p (tget st arg) in
-            mkTS (ts_in st) (ts_out st) (ts_err st) y e (ts_calls st ++ [(p, tget st arg)]) TRunning
-        | TCallInto p arg =>
-            let '(y, e) := proc p (tget st arg) in
-            mkTS (ts_in st) y e (ts_tmp st) (ts_cerr st) (ts_calls st ++ [(p, tget st arg)]) TRunning
-        | TSet FInput => mkTS (ts_tmp st) (ts_out st) (ts_err st) (ts_tmp st) (ts_cerr st) (ts_calls st) TRunning
-        | TSet FOutput => mkTS (ts_in st) (ts_tmp st) (ts_err st) (ts_tmp st) (ts_cerr st) (ts_calls st) TRunning
-        | TSetErr => mkTS (ts_in st) (ts_out st) true (ts_tmp st) (ts_cerr st) (ts_calls st) TRunning
-        | TFail => mkTS (ts_in st) (ts_out st) (ts_err st) (ts_tmp st) (ts_cerr st) (ts_calls st) TFailed
-        | TReturn => mkTS (ts_in st) (ts_out st) (ts_err st) (ts_tmp st) (ts_cerr st) (ts_calls st) TReturned
-        | TIf c body =>
-            if tcond_eval st c then fold_left (fun st' s' => texec1 fu s' st') body st else st
-        end
-      | _ => st
+      match s with
+      | TCall p arg =>
+          RRun (mkTS (ts_in st) (ts_out st) (ts_err st) (fst (proc p (tget st arg))) (snd (proc p (tget st arg)))
+                     (ts_calls st ++ [(p, tget st arg)]))
+      | TCallInto p arg =>
+          RRun (mkTS (ts_in st) (fst (proc p (tget st arg))) (snd (proc p (tget st arg))) (ts_tmp st) (ts_cerr st)
+                     (ts_calls st ++ [(p, tget st arg)]))
+      | TSet FInput => RRun (mkTS (ts_tmp st) (ts_out st) (ts_err st) (ts_tmp st) (ts_cerr st) (ts_calls st))
+      | TSet FOutput => RRun (mkTS (ts_in st) (ts_tmp st) (ts_err st) (ts_tmp st) (ts_cerr st) (ts_calls st))
+      | TSetErr => RRun (mkTS (ts_in st) (ts_out st) true (ts_tmp st) (ts_cerr st) (ts_calls st))
+      | TFail => RFail st
+      | TReturn => RRet st
+      | TIf c body =>
+          if tcond_eval st c then
+            (fix seq (l : list tstmt) (st : tstate) : tres :=
+               match l with
+               | [] => RRun st
+               | s' :: l' => match texec1 fu s' st with RRun st' => seq l' st' | r => r end
+               end) body st
+          else RRun st
       end
     end.
 
-  Definition texec (l : list tstmt) (st : tstate) : tstate :=
-    fold_left (fun st' s' => texec1 6 s' st') l st.
-
-  (* a block that has returned hands the task on: the next block starts running again *)
-  Definition tresume (st : tstate) : tstate :=
-    match ts_status st with
-    | TReturned => mkTS (ts_in st) (ts_out st) (ts_err st) (ts_tmp st) (ts_cerr st) (ts_calls st) TRunning
-    | _ => st
+  Fixpoint tseq (l : list tstmt) (st : tstate) : tres :=
+    match l with
+    | [] => RRun st
+    | s :: l' => match texec1 6 s st with RRun st' => tseq l' st' | r => r end
     end.
+
+  Definition texec (l : list tstmt) (st : tstate) : tres := tseq l st.
 End Task.
 
-Arguments mkTS {X} ts_in ts_out ts_err ts_tmp ts_cerr ts_calls ts_status.
+Arguments mkTS {X} ts_in ts_out ts_err ts_tmp ts_cerr ts_calls.
 Arguments ts_in {X} t.
 Arguments ts_out {X} t.
 Arguments ts_err {X} t.
 Arguments ts_calls {X} t.
-Arguments ts_status {X} t.
+Arguments RRun {X} st.
+Arguments RRet {X} st.
+Arguments RFail {X} st.
 
 Definition submit_prog : list tstmt :=
   [TIf (CBoth CHasPre CNotSkip) [TCall TPre FInput; TIf CCallErr [TFail]; TSet FInput]].
